@@ -1,7 +1,9 @@
 (** C19 — wire compatibility: the wire constants are literals of the model, with their layout theorems;
     the recorded vectors and the model-vs-implementation correspondence are the executable part. *)
 From Coq Require Import List Arith NArith Bool String.
+From Coq Require Import Uint63.
 From BP Require Import Model.Codec Model.Transcript Model.Verifier Model.Nonce Model.Gens Proofs.CodecP Proofs.NonceP Proofs.TranscriptP.
+From BP Require Import Crypto.Strobe Proofs.StrobeP Exec.Limbs Exec.MerlinExec.
 Import ListNotations.
 
 Theorem C19_transcript_labels :
@@ -41,3 +43,32 @@ Theorem C19_generator_labels :
   CHAIN_PREFIX = [71; 101; 110; 101; 114; 97; 116; 111; 114; 115; 67; 104; 97; 105; 110]%N /\ kind_byte KG = 71%N /\ kind_byte KH = 72%N.
 Proof. repeat split; reflexivity. Qed.
 Print Assumptions C19_generator_labels.
+
+(** ** STROBE-128 / Merlin in Gallina (Crypto/Strobe.v): what a transcript operation hands to the sponge.  The hash itself is an assumption
+    (random oracle); these are the framing facts the wire format rests on, and a known answer recorded from merlin 3.0.0. *)
+Theorem C19_merlin_append_framed : forall label msg s,
+  t_append label msg s = ad msg (meta_ad (label ++ le32 (List.length msg)) false s).
+Proof. exact t_append_framed. Qed.
+Print Assumptions C19_merlin_append_framed.
+
+Theorem C19_merlin_length_field_injective : forall label m1 m2 : list N,
+  (N.of_nat (List.length m1) < 4294967296)%N -> (N.of_nat (List.length m2) < 4294967296)%N ->
+  label ++ le32 (List.length m1) = label ++ le32 (List.length m2) -> List.length m1 = List.length m2.
+Proof. exact framed_length_field_injective. Qed.
+Print Assumptions C19_merlin_length_field_injective.
+
+Theorem C19_merlin_framed_message_injective : forall label m1 m2 : list N,
+  (label ++ le32 (List.length m1)) ++ m1 = (label ++ le32 (List.length m2)) ++ m2 -> List.length m1 = List.length m2 -> m1 = m2.
+Proof. exact framed_message_injective. Qed.
+Print Assumptions C19_merlin_framed_message_injective.
+
+(** known answer: the weight transcript of a one-member batch, recorded from the instrumented merlin 3.0.0 under the verifier of 0.4.0 *)
+Example C19_ex_merlin_known_answer :
+  MerlinExec.failing
+  [MNew 9 (B (30%N, [31653176351159618;9054973894553458;28544861224461686;29387099949441138;29556]%uint63));
+   MApp 9 (B (7%N, [31636742749384548]%uint63)) (B (30%N, [31653176351159618;9054973894553458;28544861224461686;29387099949441138;29556]%uint63));
+   MApp 9 (B (5%N, [439956238960]%uint63)) (B (8%N, [9498616350404949;182]%uint63));
+   MRng 9 17;
+   MFin 17 (B (32%N, [0;0;0;0;0]%uint63));
+   MFill 17 (B (64%N, [63479738093670623;28918316817100055;57844216381232542;33603903065352136;21296569991517158;7173551327940744;20060462874246045;52670398995838497;34946478556884299;35]%uint63))] = [].
+Proof. vm_compute. reflexivity. Qed.
